@@ -26,8 +26,18 @@ pub enum Outcome {
 
 /// Open `bytes` with the normal reader and read the files in `order` with `rb`-byte reads.
 pub fn read_checked(bytes: &[u8], orig: &BTreeMap<String, Vec<u8>>, order: &[usize], rb: usize, transitions: &mut u64) -> Outcome {
+    read_checked_cfg(bytes, orig, order, rb, false, transitions)
+}
+
+/// `failsafe_opt`: the reader configuration has `failsafe_return_data_even_unauthenticated()` set - an
+/// option documented as concerning the fail-safe reader only; the normal reader must still authenticate.
+pub fn read_checked_cfg(bytes: &[u8], orig: &BTreeMap<String, Vec<u8>>, order: &[usize], rb: usize, failsafe_opt: bool, transitions: &mut u64) -> Outcome {
     let r = guard(|| -> Outcome {
-        let mut rd = match ArchiveReader::from_config(Cursor::new(bytes), prog::reader_config(&[0])) {
+        let mut rc = prog::reader_config(&[0]);
+        if failsafe_opt {
+            rc.failsafe_return_data_even_unauthenticated();
+        }
+        let mut rd = match ArchiveReader::from_config(Cursor::new(bytes), rc) {
             Ok(r) => r,
             Err(e) => return Outcome::Error(format!("open: {e:?}")),
         };
@@ -279,11 +289,13 @@ pub fn run(started: Instant) -> i32 {
         infra::watch_case(json!({"base": m.base, "mutant": m.desc}));
         let orig = &origs[m.base];
         let orders: Vec<&[usize; 3]> = if m.all_orders { ORDERS.iter().collect() } else { vec![&ORDERS[m.idx % 6]] };
-        for order in orders {
+        for (oi, order) in orders.into_iter().enumerate() {
             let rb = if m.idx % 2 == 0 { 7 } else { 4096 };
-            let o = read_checked(&m.bytes, orig, order, rb, &mut rep.transitions);
+            // reader configuration: default, or with the fail-safe-only "unauthenticated" option set
+            let failsafe_opt = (m.idx + oi) % 2 == 1;
+            let o = read_checked_cfg(&m.bytes, orig, order, rb, failsafe_opt, &mut rep.transitions);
             rep.evaluations += 1;
-            let h = fnv(format!("{}{}{:?}", m.base, m.desc, order).as_bytes());
+            let h = fnv(format!("{}{}{:?}{}", m.base, m.desc, order, failsafe_opt).as_bytes());
             rep.state(h);
             let class = match &o {
                 Outcome::Intact => "intact",
@@ -295,7 +307,7 @@ pub fn run(started: Instant) -> i32 {
             if m.kind != "identity" {
                 rep.nontrivial(h);
             }
-            let replay = json!({"base": m.base, "mutant": m.desc, "archive_hex": hex::encode(&m.bytes), "order": order, "read_size": rb,
+            let replay = json!({"base": m.base, "mutant": m.desc, "archive_hex": hex::encode(&m.bytes), "order": order, "read_size": rb, "failsafe_option_set": failsafe_opt,
                 "original_hex": orig.iter().map(|(k, v)| (k.clone(), hex::encode(v))).collect::<BTreeMap<_, _>>()});
             match (&o, m.kind) {
                 (Outcome::Wrong(d), _) => {
@@ -315,7 +327,7 @@ pub fn run(started: Instant) -> i32 {
         rep,
         Meta {
             level: "fault_enumeration",
-            rule: "encrypted base archives from the real writer (3 interleaved files, >=5 chunks; encrypt and encrypt+compress); mutants: every single-bit flip of every byte, every byte set to 00/FF, every truncation, all chunk swaps/duplications/deletions/replacements (same archive, sibling archive with another key), header field edits; each opened with the real ArchiveReader and all files read in all 6 orders (chunk edits, identity) or one rotating order, 7-byte or 4096-byte reads. Oracle: every Ok(n) read equals the original bytes at that position, no foreign name listed, the unaltered archive reads back completely. non-trivial = distinct (mutant, order) other than identity".to_string(),
+            rule: "encrypted base archives from the real writer (3 interleaved files, >=5 chunks; encrypt and encrypt+compress); mutants: every single-bit flip of every byte, every byte set to 00/FF, every truncation, all chunk swaps/duplications/deletions/replacements (same archive, sibling archive with another key), header field edits; each opened with the real ArchiveReader and all files read in all 6 orders (chunk edits, identity) or one rotating order, 7-byte or 4096-byte reads, reader configuration alternating between the default and one with the fail-safe-only option failsafe_return_data_even_unauthenticated() set. Oracle: every Ok(n) read equals the original bytes at that position, no foreign name listed, the unaltered archive reads back completely. non-trivial = distinct (mutant, order) other than identity".to_string(),
             exhaustive: true,
             bounds: json!({"bases": progs.len(), "mutation_operators": ["bitflip(all bits of all bytes)", "byteset 00/FF", "truncate(all lengths)", "chunk swap/duplicate/delete/replace/sibling/last-to-front", "header zero/increment/low-order point"], "read_orders": "all 6 permutations for chunk edits and identity; rotating single order otherwise"}),
             assumptions: vec!["scaled constants; panics are counted here but judged by C08".to_string(), "forging a tag is assumed infeasible".to_string()],
@@ -331,8 +343,9 @@ pub fn replay(path: &str) -> i32 {
     let order: Vec<usize> = v["order"].as_array().map(|a| a.iter().map(|x| x.as_u64().unwrap_or(0) as usize).collect()).unwrap_or_default();
     let rb = v["read_size"].as_u64().unwrap_or(7) as usize;
     let mut t = 0;
-    let o1 = read_checked(&bytes, &orig, &order, rb, &mut t);
-    let o2 = read_checked(&bytes, &orig, &order, rb, &mut t);
+    let fo = v["failsafe_option_set"].as_bool().unwrap_or(false);
+    let o1 = read_checked_cfg(&bytes, &orig, &order, rb, fo, &mut t);
+    let o2 = read_checked_cfg(&bytes, &orig, &order, rb, fo, &mut t);
     if format!("{o1:?}") != format!("{o2:?}") {
         eprintln!("machinery: replay is not deterministic");
         return 2;
